@@ -108,7 +108,7 @@ Definition fin_ok (G : Prop) (T1 : thr) (f2 f3 : foc) (T' : thr) (r : res) (efin
   /\ trk9 cfin (f_k (F efin f3))
   /\ (k_mal (f_k f2) = true -> f_k (F efin f3) = f_k f2)
   /\ (k_mal (f_k f2) = false ->
-      forall t, f_k t = f_k (F efin f3) -> flags t -> flags (resume_tail r t)).
+      forall rf t, f_k t = f_k (F efin f3) -> flags t -> flags (resume_tail r rf t)).
 
 Lemma cos_upd_set2 (cos : list co) (c c' : co) :
   (i < length cos)%nat -> cos_upd cos i c' (set_nth i c' (set_nth i c cos)).
@@ -148,7 +148,7 @@ Lemma fin_change (G : Prop) (T1 : thr) (f2 : foc) (T2 : thr) (c2 : co) (evx : li
   t_nl T' = t_nl T2 -> t_ts T' = [] -> t_cn T' = [] -> t_clock T' = t_clock T2 ->
   (G -> k_mal (f_k f2) = false ->
    is_terminal new = true \/ (c_dead c2 = false /\ no_unr (c_body c2) = true)) ->
-  (forall t, f_k t = k_chg (k_after Running b (t_clock T2)) new -> flags t -> flags (resume_tail r t)) ->
+  (forall rf t, f_k t = k_chg (k_after Running b (t_clock T2)) new -> flags t -> flags (resume_tail r rf t)) ->
   fin_ok G T1 f2 (F evx f2) T' r (change_events (t_nl T2) i Running new) (with_st c2 new).
 Proof.
   intros Hpre Hmal Hgood Hst Hstarted Hcos Hnl Hl Hi Hedge HT'cos HT'nl HT'ts HT'cn HT'clk Hkr Htail.
@@ -172,7 +172,7 @@ Proof.
   split; [exact Qk|].
   split.
   { intro Hm. rewrite Q3 by (rewrite Hmal by exact Hm; exact Hm). apply Hmal. exact Hm. }
-  intros Hm t Ht Hfl. apply Htail; [|exact Hfl].
+  intros Hm rf t Ht Hfl. apply Htail; [|exact Hfl].
   rewrite Ht. rewrite Q4; [rewrite Hgood by exact Hm; reflexivity|].
   rewrite Hgood by exact Hm. cbn [k_after k_mal].
   destruct b as [| |y0 [] | | | | |]; reflexivity.
@@ -202,8 +202,8 @@ Proof.
             (k_mal (f_k f2) = false ->
                (G -> mal_of (out_bev out req) (c_st c2) = false ->
                   c_dead c2 = false /\ no_unr (c_body c2) = true)
-               /\ (forall t, f_k t = k_after (c_st c2) (out_bev out req) (t_clock T2) -> flags t ->
-                     flags (resume_tail r'' t))) ->
+               /\ (forall rf t, f_k t = k_after (c_st c2) (out_bev out req) (t_clock T2) -> flags t ->
+                     flags (resume_tail r'' rf t))) ->
             fin_ok G T1 f2 (F evx f2) T'' r'' [] c2).
   { intros T'' r'' Ecos Enl Ets Ecn Eclk Hk. unfold fin_ok. cbn [fold_left].
     split; [constructor|].
@@ -218,7 +218,7 @@ Proof.
       split; [reflexivity|]. split; [reflexivity|]. split; [auto|]. split; intro H; congruence. }
     split; [exact Ptrk|].
     split; [exact P8|].
-    intros Hm t Ht Hfl. destruct (Hk Hm) as (_ & Hk2). apply Hk2; [|exact Hfl].
+    intros Hm rf t Ht Hfl. destruct (Hk Hm) as (_ & Hk2). apply Hk2; [|exact Hfl].
     rewrite Ht. apply Hgood'; auto. }
   destruct out as [y | v | pk]; cbn [finish] in Hfin.
   - (* the body yielded *)
@@ -234,7 +234,7 @@ Proof.
           try (intros Hm; apply (Hgood' _ eq_refl Hm)).
         -- intros HG Hm. right. split; [rewrite Hdead; apply HG; exact Hm |].
            apply Hunr; [discriminate | apply HG; exact Hm].
-        -- intros t Ht Hfl. unfold resume_tail. rewrite Ht.
+        -- intros rf t Ht Hfl. unfold resume_tail. rewrite Ht.
            cbn [k_chg k_after k_mal k_last k_st k_last_clock mal_of res_eqb request_eqb negb expected_time andb].
            rewrite cstate_eqb_refl, !Z.eqb_refl. cbn [andb].
            apply flags_ffail09, flags_ffail08. exact Hfl.
@@ -244,7 +244,7 @@ Proof.
           try (intros Hm; apply (Hgood' _ eq_refl Hm)).
         -- intros HG Hm. right. split; [rewrite Hdead; apply HG; exact Hm |].
            apply Hunr; [discriminate | apply HG; exact Hm].
-        -- intros t Ht Hfl. unfold resume_tail. rewrite Ht.
+        -- intros rf t Ht Hfl. unfold resume_tail. rewrite Ht.
            cbn [k_chg k_after k_mal k_last k_st k_last_clock mal_of res_eqb request_eqb negb expected_time andb].
            rewrite cstate_eqb_refl, !Z.eqb_refl. cbn [andb].
            apply flags_ffail09, flags_ffail08. exact Hfl.
@@ -254,7 +254,7 @@ Proof.
           try (intros Hm; apply (Hgood' _ eq_refl Hm)).
         -- intros HG Hm. right. split; [rewrite Hdead; apply HG; exact Hm |].
            apply Hunr; [discriminate | apply HG; exact Hm].
-        -- intros t Ht Hfl. unfold resume_tail. rewrite Ht.
+        -- intros rf t Ht Hfl. unfold resume_tail. rewrite Ht.
            cbn [k_chg k_after k_mal k_last k_st k_last_clock mal_of res_eqb request_eqb negb expected_time andb].
            unfold timeout_of. rewrite cstate_eqb_refl, !Z.eqb_refl. cbn [andb].
            apply flags_ffail09, flags_ffail08. exact Hfl.
@@ -263,7 +263,7 @@ Proof.
         eapply fin_change with (b := BYield y RCancel); try eassumption; try reflexivity;
           try (intros Hm; apply (Hgood' _ eq_refl Hm)).
         -- intros _ _. left. reflexivity.
-        -- intros t Ht Hfl. unfold resume_tail. rewrite Ht.
+        -- intros rf t Ht Hfl. unfold resume_tail. rewrite Ht.
            cbn [k_chg k_after k_mal k_last k_st k_last_clock mal_of res_eqb request_eqb negb cstate_eqb andb].
            apply flags_ffail09, flags_ffail08. exact Hfl.
     + (* Syscall: the state is returned, requests are dropped *)
@@ -278,7 +278,7 @@ Proof.
       * intros HG Hmal. split; [rewrite Hdead; apply HG; exact Hm|].
         apply Hunr; [|apply HG; exact Hm].
         intros ->. cbn [out_bev mal_of cstate_eqb negb] in Hmal. discriminate.
-      * intros t Ht Hfl. unfold resume_tail. rewrite Ht. cbn [k_after k_mal k_last k_st out_bev].
+      * intros rf t Ht Hfl. unfold resume_tail. rewrite Ht. cbn [k_after k_mal k_last k_st out_bev].
         destruct (mal_of (BYield y req) (Syscall y' n s)); [exact Hfl|].
         cbn [res_eqb]. rewrite cstate_eqb_refl. apply flags_ffail08. exact Hfl.
   - (* the body returned *)
@@ -291,7 +291,7 @@ Proof.
         try (intros Hm; rewrite <- Est; apply (Hgood' _ eq_refl Hm)); try (cbn [upd_co t_ts t_cn]; congruence);
         try (rewrite <- Est; exact Hpre).
       * intros _ _. left. reflexivity.
-      * intros t Ht Hfl. unfold resume_tail. rewrite Ht.
+      * intros rf t Ht Hfl. unfold resume_tail. rewrite Ht.
         cbn [k_chg k_after k_mal k_last k_st mal_of res_eqb cstate_eqb negb].
         rewrite !Z.eqb_refl. cbn [andb]. apply flags_ffail08. exact Hfl.
     + pose proof (tr_from_running_None _ _ Etr) as Hne. injection Hfin as <- <- <-.
@@ -300,7 +300,7 @@ Proof.
       intro Hm. split.
       * intros _ Hmal. exfalso. cbn [out_bev mal_of] in Hmal. apply negb_false_iff in Hmal.
         apply cstate_eqb_Running in Hmal. contradiction.
-      * intros t Ht Hfl. unfold resume_tail. rewrite Ht. cbn [k_after k_mal out_bev mal_of].
+      * intros rf t Ht Hfl. unfold resume_tail. rewrite Ht. cbn [k_after k_mal out_bev mal_of].
         replace (cstate_eqb (c_st c2) Running) with false; [exact Hfl|].
         destruct (cstate_eqb (c_st c2) Running) eqn:E; [|reflexivity].
         apply cstate_eqb_Running in E. contradiction.
@@ -314,7 +314,7 @@ Proof.
         try (intros Hm; rewrite <- Est; apply (Hgood' _ eq_refl Hm)); try (cbn [upd_co t_ts t_cn]; congruence);
         try (rewrite <- Est; exact Hpre).
       * intros _ _. left. reflexivity.
-      * intros t Ht Hfl. unfold resume_tail. rewrite Ht.
+      * intros rf t Ht Hfl. unfold resume_tail. rewrite Ht.
         cbn [k_chg k_after k_mal k_last k_st mal_of res_eqb cstate_eqb negb].
         rewrite !msg_eqb_refl. cbn [andb]. apply flags_ffail08. exact Hfl.
     + pose proof (tr_from_running_None _ _ Etr) as Hne. injection Hfin as <- <- <-.
@@ -323,7 +323,7 @@ Proof.
       intro Hm. split.
       * intros _ Hmal. exfalso. cbn [out_bev mal_of] in Hmal. apply negb_false_iff in Hmal.
         apply cstate_eqb_Running in Hmal. contradiction.
-      * intros t Ht Hfl. unfold resume_tail. rewrite Ht. cbn [k_after k_mal out_bev mal_of].
+      * intros rf t Ht Hfl. unfold resume_tail. rewrite Ht. cbn [k_after k_mal out_bev mal_of].
         replace (cstate_eqb (c_st c2) Running) with false; [exact Hfl|].
         destruct (cstate_eqb (c_st c2) Running) eqn:E; [|reflexivity].
         apply cstate_eqb_Running in E. contradiction.
@@ -431,6 +431,19 @@ Qed.
 
 End Enter.
 
+Lemma refused_refusable (now : Z) (s : cstate) :
+  tr_running now s = None -> is_terminal s = false ->
+  match s with
+  | Suspend _ ts => now <? ts
+  | Syscall _ _ (SSuspend _) => true
+  | _ => false
+  end = true.
+Proof.
+  destruct s as [| |y t|y n st| | |]; cbn [tr_running is_terminal]; try discriminate.
+  - destruct (t <=? now) eqn:E; [discriminate|]. intros _ _. lia.
+  - destruct st; try discriminate; reflexivity.
+Qed.
+
 Lemma focus_cleared_resume (l : nat) (T : thr) (ot : otrk) (i : nat) (arg : Z) :
   Inv l T ot -> focus (cleared ot (Resume i arg)) i = foc0 T (clear_op (get_k ot i)).
 Proof. intro HI. rewrite (focus_cleared l T) by exact HI. reflexivity. Qed.
@@ -471,7 +484,11 @@ Proof.
       all: cbn [is_terminal].
       all: try (unfold resume_tail, first_ok;
                 cbn [first_body filter ffail08 ffail07 f_k f_07 f_08 f_09 f_clock andb];
-                rewrite Hm, Hlast0, Hev0; cbn [res_eqb negb andb ffail08 ffail07 f_07 f_08 f_09];
+                rewrite Hm, Hlast0, Hev0;
+                replace (refusable (t_clock T) k0) with true
+                  by (symmetry; unfold refusable; rewrite Hst, Est;
+                      exact (refused_refusable _ _ Htr eq_refl));
+                cbn [res_eqb negb andb ffail08 ffail07 f_07 f_08 f_09];
                 apply flags_true).
       all: try (rewrite Hev0; cbn [ffail07 f_07 f_08 f_09 negb andb res_eqb]; apply flags_true).
       all: cbn [tr_running] in Htr; discriminate. }
